@@ -105,6 +105,8 @@ def one_case(args):
     # variants (stratified): "trunc" = the input ends inside the payload of its last packet, whose RDH also carries errors (messages of the reader and of a
     # validator about the same packet); "filter" = a link filter plus an (ignored) -o next to the check, with more than one batch of matching packets
     variant = {1: "trunc", 2: "filter", 3: "storm"}.get(case % 6, "plain")
+    if variant == "storm" and "/tsan/" in exe:
+        variant = "plain"        # (race-detector pass: the storms are left to the uninstrumented build)
     if variant == "storm":
         return storm_case(exe, wd, seed, case, K, rng, out)
     s = make_input(rng, hbfs=rng.choice([40, 70]) if variant == "filter" else None)
@@ -132,6 +134,11 @@ def one_case(args):
         argv += ["-f", str(rng.choice(s.links).link_id), "-o", os.path.join(wd, "c%d.ignored" % case)]
     try:
         ref = obs.run(exe, argv, workdir=wd, stats=fmt, tag="c%d" % case)
+        if "WARNING: ThreadSanitizer" in ref.stderr:
+            i = ref.stderr.find("WARNING: ThreadSanitizer")
+            what = " | ".join(l.strip() for l in ref.stderr[i:i + 3000].split("\n") if "ThreadSanitizer" in l or "/repo/" in l)[:600]
+            out["viol"] = ("sched:tsan", "ThreadSanitizer report in the unperturbed run: %s" % what, save_replay("C05", "case%d" % case, {"input.raw": data, "stderr.txt": ref.stderr}, dict(seed=seed, case=case, argv=argv)))
+            return out
         if ref.abnormal() or ref.stats is None:
             out["viol"] = ("sched:abnormal", "abnormal end of the reference run: %s" % ref.abnormal(), save_replay("C05", "case%d" % case, {"input.raw": data, "stderr.txt": ref.stderr}, dict(argv=argv)))
             return out
@@ -160,6 +167,11 @@ def one_case(args):
                 orders.add(hashlib.sha1("\n".join(elines).encode()).hexdigest())
                 os.unlink(trace)
             sig = ([m.text for m in r.displayed_errors()], norm_stdout(r.stdout), r.stats_raw, r.rc)
+            if "WARNING: ThreadSanitizer" in r.stderr:
+                i = r.stderr.find("WARNING: ThreadSanitizer")
+                what = " | ".join(l.strip() for l in r.stderr[i:i + 3000].split("\n") if "ThreadSanitizer" in l or "/repo/" in l)[:600]
+                out["viol"] = ("sched:tsan", "ThreadSanitizer report under schedule %s: %s" % (sched, what), save_replay("C05", "case%d" % case, {"input.raw": data, "stderr.txt": r.stderr}, dict(seed=seed, case=case, argv=argv, sched=sched)))
+                break
             if sig != ref_sig:
                 part = ["order / content of the error messages on stderr", "stdout (report)", "statistics file bytes", "exit status"][[a == b for a, b in zip(sig, ref_sig)].index(False)]
                 detail = ""
@@ -190,7 +202,16 @@ def run(res):
     n, K = (12, 12) if quick else (300, 80)
     explored = 0
     tot_orders = 0
-    for o in pmap(one_case, [(exe, wd, res.seed, c, res.tier, K) for c in range(n)], workers=8):
+    jobs = [(exe, wd, res.seed, c, res.tier, K) for c in range(n)]
+    if not quick:
+        # race detector pass: a sample of the cases on a ThreadSanitizer build (reports are violations; the comparison with the unperturbed run applies as well)
+        try:
+            tsan = build.fastpasta("tsan")
+            jobs += [(tsan, wd, res.seed, 50000 + c, res.tier, 8) for c in range(48)]
+            res.extra["tsan_cases"] = 48
+        except build.BuildError as e:
+            res.inconclusive.append("ThreadSanitizer build failed: %s" % str(e)[-300:])
+    for o in pmap(one_case, jobs, workers=8):
         res.evaluations += o["runs"]
         tot_orders += o["orders"]
         if o["viol"]:
